@@ -257,7 +257,30 @@ func c07(r *mon.Run) {
 			cx.runOne(tree, expr, doc)
 			t.NontrivialDistinct(1)
 		}}
-	ws := []mon.Workload{pairs, unary, sc, scf, trees, rnd, eqw}
+	// numbers where a shortcut (integer conversion, subtraction, float32, string formatting) gives another answer
+	numTexts := []string{"0", "-0.0", "1", "1.0000000000000002", "1.5", "2", "0.5", "-0.5", "0.1", "0.30000000000000004", "0.3", "16777216", "16777217", "9007199254740992", "9007199254740993",
+		"9223372036854775807", "9223372036854775808", "-9223372036854775808", "1e19", "-1e19", "1e308", "-1e308", "5e-324", "1e-7", "123456789", "123456788.99999999"}
+	NN := len(numTexts)
+	numw := mon.Workload{Name: "special-numbers", N: NN * NN * 7,
+		Do: func(i int, t *mon.Tally) {
+			op := []string{"==", "!=", "<", "<=", ">", ">=", "=="}[i%7]
+			k := i / 7
+			x, y := k/NN, k%NN
+			doc := map[string]interface{}{"a": docs.J(numTexts[x]), "b": docs.J(numTexts[y]), "rows": []interface{}{map[string]interface{}{"v": docs.J(numTexts[x])}, map[string]interface{}{"v": docs.J(numTexts[y])}}}
+			var tree *gen.Expr
+			switch {
+			case i%7 == 6:
+				tree = gen.Chain(gen.Field("rows"), gen.StFilter(gen.Cmp("<", gen.Field("v"), gen.LitJSON(numTexts[y]))), gen.StField("v"))
+			case k%2 == 0:
+				tree = gen.Cmp(op, gen.Field("a"), gen.LitJSON(numTexts[y]))
+			default:
+				tree = gen.Cmp(op, gen.Field("a"), gen.Field("b"))
+			}
+			cx := &caseCtx{r, t, "special-numbers", i}
+			cx.runOne(tree, gen.Spell(tree), doc)
+			t.NontrivialDistinct(1)
+		}}
+	ws := []mon.Workload{pairs, unary, sc, scf, trees, rnd, eqw, numw}
 	if r.Tier == "thorough" {
 		d2m := gen.Materialize(gen.Union(gen.Map(d1, un...), gen.Product(reps, d1, bin...)))
 		d3 := gen.Product(d2m, d1, bin...)
